@@ -293,7 +293,10 @@ def e2e(run):
     f2 = Q.QConv2D(2, (1, 1), kernel_quantizer="quantized_bits(4,0,1,alpha=1)", use_bias=False, name="feat2")(i)
     y2 = keras.layers.Multiply(name="mul_small_first")([g2, f2])
     z2 = keras.layers.Add(name="add_three")([g2, y2, g])
-    return keras.Model(i, [z, z2])
+    # squeeze-and-excite shape: the small operand is computed *from* the large one, so its producer comes later in the graph
+    g3 = Q.QConv2D(2, (4, 3), kernel_quantizer="quantized_bits(4,0,1,alpha=1)", use_bias=False, name="gate_of_feat")(f)
+    z3 = keras.layers.Multiply(name="mul_excite")([f, g3])
+    return keras.Model(i, [z, z2, z3])
   models = [(n, mk, src) for n, mk, src in c18.map_models() if n != "auto_po2_dense"] + [("branch_add", pool_merge, "quantized_bits(8,0,1)"),
                                                                                           ("broadcast_merge", broadcast_merge, "quantized_bits(8,0,1)")]
   nl = 0
